@@ -89,6 +89,10 @@ func c16(c *core.Ctx) {
 			rO.Check(fl.Dominates(lc, ld), f.Key+":closing-before-drain", closing.Pos(), "new requests are turned away before the drain", "vigils are drained before the swamp is marked closing: new requests keep arriving and the drain may never end or end too early")
 			rO.Check(fl.Dominates(ld, lch), f.Key+":drain-before-storage-destroy", drain.Pos(), "storage destroyed only after in-flight operations ended", "the storage is destroyed while operations may still be in flight")
 			rO.Check(fl.Dominates(lch, le) || fl.Dominates(ld, le), f.Key+":event-last", ev.Pos(), "closed event after the drain", "the swamp is announced closed before it is drained")
+			// the storage destroy is conditional (in-memory swamps have none), so "last" is stated as: nothing
+			// that destroys the storage can still run after the announcement
+			evThenDestroy, _ := fl.CanReach(le, nil, nil, core.ContainsNode(chron))
+			rO.Check(!evThenDestroy, f.Key+":event-after-storage-destroy", ev.Pos(), "the storage is gone before the name is given back", "the swamp is announced closed - the name is free for the next summon - while its storage is still to be destroyed: a new instance created in that window writes an acknowledged record into files the old instance then deletes")
 		}
 		// who deletes from hydra.swamps
 		swampsF := p.MustField(pkgHydra, "hydra", "swamps")
